@@ -146,13 +146,13 @@ def lifecycle(ctx, case):
         def connection_app_id_set(self, conn, app_id): pass
     mgr.add_connection_list_listener(L(), False)
     cl = CL()
-    pool = ['PARSED', '7', 'gdb_conn:0x55']
+    pool = ['PARSED', '7', 'gdb_conn:0x55'] if nops <= 3 else ['PARSED', '7']
     # reference: list of [id, open?], in creation order
     ref = []
     for step in range(nops):
         op = ctx.choose(['open', 'close', 'message'], 'op%d' % step)
         cid = ctx.choose(pool, 'id%d' % step)
-        role = ctx.choose([None, True, False], 'role%d' % step) if op == 'open' else None
+        role = (ctx.choose([None, True, False], 'role%d' % step) if nops <= 3 else [None, True, False][step % 3]) if op == 'open' else None
         before_list = list(mgr.connection_list)
         before_tables = [(c, [list(v) for v in c.db.values()], len(c.message_list), c.open) for c in before_list]
         nev = len(events)
@@ -183,7 +183,7 @@ def lifecycle(ctx, case):
             m = wl.Message(float(step), wl.UnresolvedObject(1, None), True, 'sync', ())
             mgr.message(cid, m)
             tgt = before_list[newest_open[-1]]
-            ctx.check('routed to the newest open connection of that id', tgt.message_list[-1] is m and events[nev:] == [('msg', tgt, m)])
+            ctx.check('routed to the newest open connection of that id', bool(tgt.message_list) and tgt.message_list[-1] is m and events[nev:] == [('msg', tgt, m)])
             ctx.check('no other connection records it', all(m not in c.message_list for c in before_list if c is not tgt))
         # global invariants
         ctx.check('open flags as per the reference history', [c.is_open() for c in mgr.connection_list] == [o for _, o in ref])
@@ -240,6 +240,9 @@ def interleave(ctx, case):
     _quiet()
     # a stream may start after its get_registry (the log began later): then the role is unknown
     A, B = STREAM_A[sa:sa + na], STREAM_B[sb:sb + nb]
+    if sa == 9:
+        # the tag's first line names an object the tool never saw created (the log began mid-way): reported, but the tag is known from then on
+        A = ['[999.900] <1> wl_display#1.delete_id(77)'] + STREAM_A[1:1 + na]
     # choose an interleaving preserving each stream's order
     order = []
     ia = ib = 0
@@ -285,11 +288,13 @@ def interleave(ctx, case):
     else:
         # streams that begin after their get_registry mention objects that were never created (shown as unresolved, without
         # a connection prefix): only the connection-level facts are checked for them
-        ctx.check('each connection announced and closed once', len([s for s in items if s.startswith('New ')]) == 2 and len([s for s in items if s.startswith('Closed ')]) == 2)
+        nconn = (1 if (na or sa == 9) else 0) + (1 if nb else 0)
+        ctx.check('each connection announced and closed once', len([s for s in items if s.startswith('New ')]) == nconn and len([s for s in items if s.startswith('Closed ')]) == nconn)
     roles = {c.name(): c.is_server() for c in mgr.connections()}
     if na:
         ctx.check('role of the first connection: from the direction of ITS OWN get_registry (sent = client side), unknown if its first line is something else',
                   roles[name_of['a']] is (False if sa == 0 else None))
+        ctx.check('the first connection is one connection (not opened again for a later line)', sum(1 for c in mgr.connections()) == (1 if na or sa == 9 else 0) + (1 if nb else 0))
     if nb:
         ctx.check('role of the second connection: from the direction of ITS OWN get_registry (received = server side), unknown if its first line is something else',
                   roles[name_of['b']] is (True if sb == 0 else None))
@@ -315,10 +320,11 @@ def obligations(tier):
            'ids a != b arbitrary in [2,2^32) used on both connections; X: a alive/dead; Y: three table shapes + one message; message: target arbitrary, <= 2 arguments of kinds int/obj/new, name other/delete_id',
            frame, cases=fcases, stubs=['association-list tables', 'protocol descriptions not loaded']),
         Ob('lifecycle', 'symx', 'open/close/message sequences on the connection-id interface vs a reference history', FUNCS[:6],
-           'all sequences of <= %d operations over 3 connection ids (exhaustive)' % (3 if tier == 'quick' else 4), lifecycle, cases=[1, 2, 3] if tier == 'quick' else [1, 2, 3, 4]),
+           'all sequences of <= %d operations over 3 connection ids (exhaustive)' % (4 if tier == 'quick' else 5), lifecycle, cases=[1, 2, 3, 4] if tier == 'quick' else [1, 2, 3, 4, 5]),
         Ob('interleavings', 'symx', 'every interleaving of two tagged log streams (colliding object ids): per-connection display independent of the interleaving; notices', FUNCS,
            'streams of <= 4 + <= 4 lines, all order-preserving interleavings (exhaustive)', interleave,
            cases=[(a, b) for a in range(0, 5) for b in range(0, 5) if a + b > 0 and (tier != 'quick' or a + b <= 6)] +
-                 [(a, b, x, y) for (x, y) in ((1, 0), (0, 1), (1, 1)) for a in (1, 2, 3) for b in (1, 2, 3) if x + a <= 4 and y + b <= 4 and (tier != 'quick' or a + b <= 4)]),
+                 [(a, b, x, y) for (x, y) in ((1, 0), (0, 1), (1, 1)) for a in (1, 2, 3) for b in (1, 2, 3) if x + a <= 4 and y + b <= 4 and (tier != 'quick' or a + b <= 4)] +
+                 [(a, b, 9, 0) for a in (1, 2) for b in (0, 1, 2)]),
         Ob('frame-reachable', 'symx', 'reachability twin', FUNCS[:6], '', twin, cases=[(('new', 'obj'), 'x')], expect_cex=True),
     ]
